@@ -324,18 +324,35 @@ Print Assumptions C15_reset_stream_at_regression.
     In the packet-level model that is replayed against real connections with and without a qlog
     tracer, the first failing frame decides the packet: the verdict (= the connection's close
     error) and the state do not depend on the frames behind it. *)
-Theorem C15_packet_first_error_decides : forall pre s s1 f o s2 e fr rest rest',
-  handle_packet s pre = (s1, None) -> gframe_op f = Some o -> tstep s1 o = (s2, RErr e, fr) ->
-  handle_packet s (pre ++ f :: rest) = (s2, Some e) /\
-  handle_packet s (pre ++ f :: rest) = handle_packet s (pre ++ f :: rest').
+Theorem C15_packet_first_error_decides : forall pre g g1 fr0 f o s2 e fr rest rest',
+  handle_packet g pre = (g1, None, fr0) -> gframe_op f = Some o ->
+  tstep (g_sm g1) o = (s2, RErr e, fr) ->
+  handle_packet g (pre ++ f :: rest) =
+    (mkG s2 (g_cancel g1) (g_final g1) (g_done g1) (g_nextA g1), Some e, fr0 ++ fr) /\
+  handle_packet g (pre ++ f :: rest) = handle_packet g (pre ++ f :: rest').
 Proof.
   intros. split; [eapply handle_packet_first_error; eauto|eapply handle_packet_rest_irrelevant; eauto].
 Qed.
 Print Assumptions C15_packet_first_error_decides.
 
 Example C15_packet_example :
-  snd (handle_packet (init_sm false 2 2) [GStream 8; GStream 0]) = Some ErrLimit /\
-  snd (handle_packet (init_sm false 2 2) [GPing; GStopSending 2; GStream 0; GStream 4]) = Some ErrState /\
-  i_nextOpen (s_ib (fst (handle_packet (init_sm false 2 2) [GStream 8; GStream 0]))) = 0.
+  snd (fst (handle_packet (g_init false 2 2) [GStream 8; GStream 0])) = Some ErrLimit /\
+  snd (fst (handle_packet (g_init false 2 2) [GPing; GStopSending 2; GStream 0; GStream 4])) = Some ErrState /\
+  i_nextOpen (s_ib (g_sm (fst (fst (handle_packet (g_init false 2 2) [GStream 8; GStream 0]))))) = 0.
 Proof. vm_compute. repeat split; reflexivity. Qed.
 Print Assumptions C15_packet_example.
+
+(** a stream completed through the connection: accepted, abandoned by the application, final size
+    told by the peer's FIN - the MAX_STREAMS for the freed slot is queued by the packet that carries
+    the FIN, and the peer may then open one more stream *)
+Example C15_glue_completion_example :
+  snd (glue_run (g_init false 1 1)
+         [SPacket [GStream 0]; SApp (GAAccept false); SPacket [GStream 4]; SApp (GAAbandon 0);
+          SPacket [GStreamFin 0; GStream 4]]) =
+  [(0, []); (0, []); (ErrLimit, [])] \/
+  snd (glue_run (g_init false 1 1)
+         [SPacket [GStream 0]; SApp (GAAccept false); SApp (GAAbandon 0);
+          SPacket [GStreamFin 0; GStream 4]]) =
+  [(0, []); (0, []); (0, []); (0, [FMax false 2])].
+Proof. right. vm_compute. reflexivity. Qed.
+Print Assumptions C15_glue_completion_example.
